@@ -159,7 +159,7 @@ Proof. destruct o; reflexivity. Qed.
 Section Bridge.
 Context {T : Type} `{Num T}.
 
-Lemma w_data_is_w_elem (flg : nat -> bool * bool) (bdtf : nat -> bool) (icast : T -> T)
+Lemma w_data_is_w_elem (flg : nat -> bool * bool) (bdtf : nat -> dtinfo) (icast : T -> T)
       (sp : space) (o : opname) (self wrapped tmp : elem) :
   w_data flg bdtf icast sp o self wrapped tmp = w_elem flg bdtf icast sp o self wrapped tmp.
 Proof. unfold w_data, w_elem. rewrite redispatch_id. reflexivity. Qed.
@@ -214,7 +214,7 @@ End Bridge.
 Section Ops.
 Context {T : Type} {N : Num T} {F : NumField T}.
 Variable flg : nat -> bool * bool.
-Variable bdtf : nat -> bool.
+Variable bdtf : nat -> dtinfo.
 Variable icast : T -> T.
 
 Definition cast_of (fl : bool) : T -> T := if fl then (fun u => u) else icast.
@@ -361,7 +361,7 @@ Section NestedAdd.
 Context {T : Type} {N : Num T} {F : NumField T}.
 Add Field Tfield3 : nf_field.
 Variable flg : nat -> bool * bool.
-Variable bdtf : nat -> bool.
+Variable bdtf : nat -> dtinfo.
 Variable icast : T -> T.
 
 Lemma vlin_one_one (u v : list T) : vlin (of_Z 1) u (of_Z 1) v = vadd u v.
@@ -400,7 +400,7 @@ Qed.
 Section NestedIAdd.
 Context {T : Type} {N : Num T} {F : NumField T}.
 Variable flg : nat -> bool * bool.
-Variable bdtf : nat -> bool.
+Variable bdtf : nat -> dtinfo.
 Variable icast : T -> T.
 
 Theorem nested_iadd_correct (sp : space) (x y : elem) (s : store T) :
